@@ -1,0 +1,31 @@
+//go:build verif
+
+package store
+
+// Contracts for the verif engine (/verif). Comment-only: no code is compiled
+// from this file with or without the tag.
+
+// Assumed contract of the backend (both implementations are verified against their own Execute contract).
+//@ func (Store).Execute
+//@ iface
+//@ records execute
+//@ ensures (result0 != nil) != (result1 != nil)
+//@ ensures result1 == nil ==> len(result0) == len(arg0)
+
+// One completion per submission, in order, built only after Execute returned: every completion carries
+// either the store error or the results of its own transaction.
+//@ func Process
+//@ props C06 C12 C16
+//@ nopanic C13
+//@ requires store != nil
+//@ elem ^sqes$ assume elem != nil && elem.Submission != nil && elem.Submission.Store != nil
+//@ loop 1 invariant len(transactions) == rangeindex1 + 1
+//@ loop 2 invariant len(cqes) == rangeindex2 + 1
+//@ loop-complete 1
+//@ loop-complete 2
+//@ site loop 2 append CQE assert elem != nil && elem.Id == sqe.Id
+//@ site loop 2 append CQE assert err != nil ==> elem.Error == err && elem.Completion == nil
+//@ site loop 2 append CQE assert err == nil ==> elem.Error == nil && elem.Completion != nil && elem.Completion.Kind == t_aio.Store && elem.Completion.Store != nil && sameslice(elem.Completion.Store.Results, results[i])
+//@ site loop 2 backedge assert calls("execute") == 1
+//@ ensures calls("execute") == 1
+//@ ensures len(result) == len(sqes)
